@@ -653,7 +653,8 @@ func (ss *sessState) doStep(i int, st *plan.Step) (obs string) {
 				}
 			}
 		} else if (ss.prop == "C11" || ss.prop == "C09") && !verifsim.Active() && ss.handles[st.H+".forked"] == nil &&
-			(st.Op == "dec_decode" || st.Op == "dec_decode_ctx" || st.Op == "dec_token") && strings.Contains(obs, " err=") && !strings.Contains(obs, ` err=""`) {
+			(st.Op == "dec_decode" || st.Op == "dec_decode_ctx" || st.Op == "dec_token") &&
+			(strings.Contains(obs, " err=") && !strings.Contains(obs, ` err=""`) || ss.forkEarly(st)) {
 			if rd, ok := ss.handles[st.H+".r"].(*SimReader); ok {
 				if rest, plain := rd.RestPlain(); plain {
 					buffered, _ := io.ReadAll(d.Buffered())
@@ -896,6 +897,13 @@ func clipS(s string, n int) string {
 		return s[:n]
 	}
 	return s
+}
+
+// forkEarly: in every other session the fresh Decoder is set up after the first
+// call whatever its outcome (state that a successful call with options leaves in
+// the handle), otherwise after the first failed call.
+func (ss *sessState) forkEarly(st *plan.Step) bool {
+	return hashName(ss.s.ID)%2 == 0
 }
 
 // scribbleSpare writes a marker into the spare capacity (len..cap) of every
